@@ -223,3 +223,79 @@ func VerifFold() {
 		_ = orig
 	}
 }
+
+// VerifMediatype: the mimetype part equals the reference split; no panic on arbitrary bytes;
+// every parameter key and value is a piece of the argument without separators.
+func VerifMediatype() {
+	n := vRange("n", 0, vParam("N", 4))
+	b := vBytes("b", n)
+	for i := range b {
+		c := b[i]
+		vAssume(c == 'a' || c == '/' || c == ';' || c == '=' || c == ' ' || c == 'x' || c == '"')
+	}
+	orig := append([]byte(nil), b...)
+	mt, params := Mediatype(b)
+	// reference: skip leading spaces; the mimetype ends at the first ';' or ' ' at index >= 3
+	s := 0
+	for s < n && orig[s] == ' ' {
+		s++
+	}
+	rest := orig[s:]
+	end := len(rest)
+	for i := 3; i < len(rest); i++ {
+		if rest[i] == ';' || rest[i] == ' ' {
+			end = i
+			break
+		}
+	}
+	vAssert(string(mt) == string(rest[:end]), "mediatype-mimetype")
+	for k, v := range params {
+		for i := 0; i < len(k); i++ {
+			vAssert(k[i] != ';' && k[i] != '=' && k[i] != ' ', "mediatype-param-key")
+		}
+		for i := 0; i < len(v); i++ {
+			vAssert(v[i] != ';' && v[i] != ' ', "mediatype-param-value")
+		}
+	}
+	vReach("mediatype")
+}
+
+// VerifDataURI: "data:" + mediatype + "," + percent-encoded payload: media type (text/plain
+// when absent) and exact payload; ErrBadDataURI without the scheme or the comma.
+func VerifDataURI() {
+	n := vRange("n", 0, vParam("N", 3))
+	tail := vBytes("b", n)
+	for i := range tail {
+		c := tail[i]
+		vAssume(c == 'a' || c == '/' || c == ';' || c == ',' || c == '%' || c == '4' || c == '1' || c == '+' || c == '=')
+	}
+	var src []byte
+	if vRange("scheme", 0, 1) == 0 {
+		src = append([]byte("data:"), tail...)
+	} else {
+		src = append([]byte("dat:"), tail...)
+	}
+	orig := append([]byte(nil), src...)
+	mt, data, err := DataURI(src)
+	comma := -1
+	if len(orig) > 5 && string(orig[:5]) == "data:" {
+		for i := 5; i < len(orig); i++ {
+			if orig[i] == ',' {
+				comma = i
+				break
+			}
+		}
+	}
+	if comma < 0 {
+		vAssert(err == ErrBadDataURI, "bad-data-uri-not-reported")
+		vReach("bad")
+		return
+	}
+	vAssert(err == nil, "data-uri-rejected")
+	want := DecodeURL(append([]byte(nil), orig[comma+1:]...))
+	vAssert(string(data) == string(want), "data-uri-payload")
+	if comma == 5 {
+		vAssert(string(mt) == "text/plain", "data-uri-default-mediatype")
+	}
+	vReach("datauri")
+}
